@@ -19,7 +19,7 @@ MUTANTS = [
     dict(id="decl_order", props=["C12", "C09"], file=G,
          old="fields_def = f\"''.join(map(str, [{', '.join(self.local_vars)}]))\"",
          new="fields_def = f\"''.join(map(str, [{', '.join(self._experiment_ast.splitting_fields)}]))\""),
-    dict(id="repr_key", props=["C12", "C15"], file=G, old="''.join(map(str, [", new="''.join(map(repr, ["),
+    dict(id="repr_key", props=["C12", "C15"], file=G, old="fields_def = f\"''.join(map(str, [", new="fields_def = f\"''.join(map(repr, ["),
     dict(id="sep_key", props=["C12"], file=G, old="fields_def = f\"''.join(", new="fields_def = f\"'|'.join("),
     dict(id="div_ffffffff", props=["C12", "C03"], file=B, old="max_int = 0x100000000", new="max_int = 0xFFFFFFFF"),
     dict(id="hash_builtin", props=["C01", "C12"], file=B,
